@@ -9,13 +9,13 @@ import (
 )
 
 type evalEnv struct {
-	x     *Exec
-	vars  map[string]interface{}
-	cur   map[string]interface{}
-	pre   map[string]interface{}
-	depth int
+	x      *Exec
+	vars   map[string]interface{}
+	cur    map[string]interface{}
+	pre    map[string]interface{}
+	depth  int
 	maxLen int
-	keys  []string
+	keys   []string
 }
 
 type evalErr struct{ msg string }
